@@ -59,7 +59,8 @@ pub enum Op {
     Store { c: usize, v: Src },
     Swap { c: usize, v: Src, h: usize },
     Cas { c: usize, cur: Cur, v: Src, g: usize },
-    Rcu { c: usize, h: usize, #[serde(default)] panic_at: u32, #[serde(default)] pd: bool, #[serde(default)] nested: Vec<Op> },
+    /// nested: operations run from inside the closure on attempts 1..=nested_until (re-entrancy)
+    Rcu { c: usize, h: usize, #[serde(default)] panic_at: u32, #[serde(default)] pd: bool, #[serde(default)] nested: Vec<Op>, #[serde(default)] nested_until: u32 },
     IntoInnerC { c: usize, h: usize },
     DropC { c: usize },
     CacheNew { x: usize, c: usize },
@@ -92,6 +93,9 @@ pub struct Program {
     pub strategy: String,
     #[serde(default)]
     pub reuse: String,
+    /// scheduling points after which the execution counts as not terminating (0 = default)
+    #[serde(default)]
+    pub step_limit: usize,
 }
 
 /// A projection guard of any type, reduced to what the checks look at.
@@ -611,7 +615,7 @@ where
             ret("cas", *c as i64, rid, *g as i64, 0);
             drop(old);
         }
-        Op::Rcu { c, h, panic_at, pd, nested } => {
+        Op::Rcu { c, h, panic_at, pd, nested, nested_until } => {
             let Some(cont) = cont(w, *c) else { return };
             inv("rcu", *c as i64, 0, 0, *h as i64);
             let mut attempt = 0u32;
@@ -621,8 +625,10 @@ where
                 attempt += 1;
                 let cid = val_id(cur);
                 sched::log(json!({"e": "rcu_f", "t": me, "c": c_i, "cur": cid, "k": attempt as i64}));
-                for op in nested.iter() {
-                    run_nested(ctx, op);
+                if attempt <= (*nested_until).max(1) {
+                    for op in nested.iter() {
+                        run_nested(ctx, op);
+                    }
                 }
                 if *panic_at == attempt {
                     panic!("asv: user closure panics (attempt {})", attempt);
